@@ -259,6 +259,23 @@ class Source:
                     f.write("nested file of " + job.id + "\n" * (n + 1))
                 with open(job.fn("sub/g.bin"), "wb") as f:
                     f.write(bytes(range(256)) * 3 + job.id.encode())
+            if j.get("embed", "none") != "none":
+                # state point files that are payload, not jobs (depth 1, 2, 3 below the job directory)
+                os.makedirs(job.fn("sub"), exist_ok=True)
+                with open(job.fn("sub/" + FN_SP), "w") as f:
+                    json.dump({"embedded_in": job.id, "at": "sub"}, f)
+                os.makedirs(job.fn("emb/two"))
+                if j["embed"] == "self":
+                    shutil.copy(job.fn(FN_SP), job.fn("emb/two/" + FN_SP))     # the job's own state point once more
+                else:
+                    with open(job.fn("emb/two/" + FN_SP), "w") as f:
+                        json.dump({"embedded_in": job.id, "at": "emb"}, f)
+                inner = job.fn("inner/workspace/" + "0" * 32)
+                os.makedirs(inner)
+                with open(os.path.join(inner, FN_SP), "w") as f:
+                    json.dump({"embedded_in": job.id, "at": "inner"}, f)
+                with open(os.path.join(inner, "payload.dat"), "w") as f:
+                    f.write("payload of the embedded job directory in " + job.id)
         self.workspace = self.project.workspace
         self.snap = core.snapshot(self.project.path)
         self.jobtrees = {i: files_only(core.snapshot(os.path.join(self.workspace, i))) for i in self.ids}
@@ -334,18 +351,27 @@ def new_project(root, name):
     return p
 
 
+PAYLOAD_DIRS = ("sub", "emb", "inner")   # top-level payload directories of a job (Source); never path components
+
+
+def _is_payload(rel):
+    return any(c in PAYLOAD_DIRS for c in rel.split("/")[:-1])
+
+
 def exported_jobs_in_target(target, kind):
-    """how many jobs' state point files reached the target (raw)"""
+    """how many jobs' own state point files reached the target (raw; embedded payload state points do not count)"""
     if kind == "":
-        return sum(1 for r, _, fs in os.walk(target) if FN_SP in fs) if os.path.isdir(target) else 0
+        if not os.path.isdir(target):
+            return 0
+        return sum(1 for r, _, fs in os.walk(target) if FN_SP in fs and not _is_payload(os.path.relpath(os.path.join(r, FN_SP), target)))
     if not os.path.exists(target) or os.path.getsize(target) == 0:
         return 0
     if kind == ".zip":
         with zipfile.ZipFile(target) as z:
-            return sum(1 for n in z.namelist() if os.path.basename(n) == FN_SP)
+            return sum(1 for n in z.namelist() if os.path.basename(n) == FN_SP and not _is_payload(n))
     try:
         with tarfile.open(target) as t:
-            return sum(1 for n in t.getnames() if os.path.basename(n) == FN_SP)
+            return sum(1 for n in t.getnames() if os.path.basename(n) == FN_SP and not _is_payload(n))
     except tarfile.ReadError:
         return 0
 
@@ -354,7 +380,7 @@ def strip_statepoint_files(src_dir, dst_dir):
     """a copy of an exported directory tree without state point files (a 'foreign' data space)"""
     shutil.copytree(src_dir, dst_dir)
     for r, _, fs in os.walk(dst_dir):
-        if FN_SP in fs:
+        if FN_SP in fs and not _is_payload(os.path.relpath(os.path.join(r, FN_SP), dst_dir)):
             os.remove(os.path.join(r, FN_SP))
 
 
